@@ -96,6 +96,7 @@ type FnCtx struct {
 	panicCond string // entry-state condition under which a panic is documented ("false" if none)
 	notes     []string
 	unrolled  int
+	boundedIters int
 	srcCache  map[string][]string
 	ghost     map[string]Val
 	dry       int
